@@ -83,11 +83,17 @@ def run_strategy_case(ctx, kind_, idx):
     x, y_arg, y = R.narrow_series(rng, x, y, meta)
     info = R.brief(strat, x, y, n, kw, meta)
     try:
-        with fp_watch(ctx):
+        with fp_watch(ctx) as fpw:
             xs, ys = R.run(strat, x, y_arg, n, kw, rng=rng)
     except Exception as e:
         ctx.judged()
         ctx.exception("raised_on_admissible_input", cid, e, {"case": info})
+        return
+    if fpw.tripped:
+        # the values are judged below; a caller running with warnings as errors or numpy.seterr(all="raise") would not
+        # have got any - the unchanged code answers ordinary finite input without a single floating-point warning
+        ctx.violation("floating_point_warning_on_ordinary_input", cid, {"warnings": fpw.tripped[:4], "case": info})
+        ctx.judged()
         return
     if R.well_formed(xs, ys, len(x), n):
         ctx.judged()
